@@ -277,3 +277,127 @@ PLANS["C10"] = plan_c10()
 PLANS["C11"] = plan_c11()
 PLANS["C14"] = plan_c14()
 PLANS["C15"] = plan_c15()
+
+
+def plan_prog(prop):
+    pid = "C%02d" % prop
+
+    def jobs(tier, seed):
+        return [
+            {"name": pid + ".prog.quarantine", "flavour": "native", "args": ["prog", "prop=%d" % prop, "execs=%d" % T(tier, 6000, 400000)], "shards": 4, "threads": 4, "timeout": 2400},
+            {"name": pid + ".prog.reuse", "flavour": "native", "args": ["prog", "prop=%d" % prop, "alloc=reuse", "execs=%d" % T(tier, 3000, 200000)], "shards": 4, "threads": 4, "timeout": 2400},
+        ]
+
+    def ev(merged, results):
+        c = merged["counters"]
+        e = core_evidence(merged, results)
+        e["frozen_at_site"] = {k[len("frozen_at."):]: v for k, v in c.items() if k.startswith("frozen_at.")}
+        e["situations"] = {k[len("prog.situation."):]: v for k, v in c.items() if k.startswith("prog.situation.")}
+        e["measured"] = {k: v for k, v in c.items() if k.startswith(("c08.", "c09."))}
+        e["max_own_steps"] = {k: v for k, v in merged["maxima"].items() if k.startswith(("c08.", "c09."))}
+        e["bound"] = "64 own steps per load" if prop == 8 else "50 + 70 x #nodes own steps per operation, counted from the freeze"
+        return e
+
+    def req(merged):
+        c = merged["counters"]
+        need = []
+        if prop == 8:
+            for k in ["c08.loads.solo", "c08.loads.random", "c08.loads.adversary", "c08.loads.freeze", "c08.victim_ran_frozen", "load.fallback_confirmed", "load.fallback_helped", "load.fast_changed_debt_returned"]:
+                if c.get(k, 0) == 0:
+                    need.append("never happened: " + k)
+        else:
+            groups = {
+                "reader frozen inside the read-intent window of the fallback": ["FALLBACK_LOAD", "CONFIRM_SLOT", "CONFIRM_CTRL"],
+                "reader frozen between slot publication and the confirming read": ["ATTEMPT_CONFIRM"],
+                "writer frozen inside the debt walk": ["PAYALL_NODE", "DEBT_PAY", "WRITER_SUB"],
+                "writer frozen inside help": ["HELP_CTRL_LOAD", "HELP_ADDR_LOAD", "HELP_REPLACEMENT", "HELP_SPACE_LOAD", "HELP_HANDOVER_STORE", "HELP_CTRL_CAS", "HELP_CAS_OK", "HELP_CAS_LOST"],
+                "thread frozen while claiming or cooling a node": ["NODE_CLAIM", "COOLDOWN_CHECK", "COOLDOWN_WRITERS", "COOLDOWN_CAS", "COOLDOWN_START", "LIST_HEAD_LOAD"],
+            }
+            for what, sites in groups.items():
+                if sum(c.get("frozen_at." + s, 0) for s in sites) == 0:
+                    need.append("no probe with a " + what)
+            for k in ["c09.fresh_prober", "c09.midop_prober"]:
+                if c.get(k, 0) == 0:
+                    need.append("never happened: " + k)
+        return need
+    rule8 = ("One evaluation = one TOKEN-scheduled execution: a victim thread that already used the crate holds g in {0,7,8,9,20} guards and performs 6-14 "
+             "measured loads (load / load_full), each under a budget of 64 of its own step points, while 1-3 writers run under one of four schedulers: never "
+             "(solo), random, an adversary completing 1-3 whole writes after EVERY victim step, or all other threads frozen for good at a random global step "
+             "(possibly in the middle of a victim load). All executions are non-trivial; distinct = distinct schedule-trace hash (union over shards).")
+    rule9 = ("One evaluation = one TOKEN-scheduled execution: at a random global step every thread except the prober is frozen at its current step point; the "
+             "prober (a writer caught mid-operation, or a thread that has not used the crate yet; optionally next to a thread that exited early) completes its "
+             "operation and runs store, swap, compare_and_swap, rcu, load_full, load, guard drop, handle drop alone, each within 50 + 70 x #nodes own steps "
+             "counted from the freeze; afterwards everything resumes and the conservation law / histories are checked. Distinct = distinct schedule-trace hash.")
+    return {
+        "level": "exploration",
+        "jobs": jobs,
+        "rule": rule8 if prop == 8 else rule9,
+        "evidence": ev,
+        "required": req,
+        "assumptions": [
+            "Progress is restated as bounded progress in the caller's own step points (crate hooks + harness pointer methods) under schedules the harness forces; a bound on hooked steps bounds shared-memory operations, not instructions.",
+            "Loops without any step point are caught only by the watchdog rule (token holder inside a crate call, no step for 15 s, thread state R with growing CPU time or S/D on four samples).",
+        ],
+        "min_evaluations": {"quick": 5000, "thorough": 300000},
+    }
+
+
+PLANS["C08"] = plan_prog(8)
+PLANS["C09"] = plan_prog(9)
+
+
+def plan_c13():
+    def jobs(tier, seed):
+        js = [
+            {"name": "C13.wrap.token", "flavour": "native", "args": ["wrap", "mode=token", "reps=%d" % T(tier, 6, 400), "nshards=4"], "shards": 4, "threads": 3, "timeout": 2400},
+            {"name": "C13.wrap.token.reuse", "flavour": "native", "args": ["wrap", "mode=token", "alloc=reuse", "reps=%d" % T(tier, 3, 200), "nshards=4"], "shards": 4, "threads": 3, "timeout": 2400},
+            {"name": "C13.wrap.free", "flavour": "native", "args": ["wrap", "mode=free", "reps=%d" % T(tier, 4, 300), "nshards=4"], "shards": 4, "threads": 3, "timeout": 2400},
+            {"name": "C13.wrap.free.asan", "flavour": "asan", "args": ["wrap", "mode=free", "alloc=real", "val=arc", "reps=%d" % T(tier, 2, 100), "nshards=4"], "shards": 4, "threads": 3, "timeout": 2400},
+            core_token("C13.core.token", "c01", T(tier, 800, 40000)),
+            life_job("C13.life.token", "token", execs=T(tier, 300, 15000)),
+        ]
+        for k in ([1] if tier == "quick" else [0, 1, 2, 5, 9, 16]):
+            js.append({"name": "C13.wrap.miri.k%d" % k, "flavour": "miri", "args": ["wrap", "mode=free", "alloc=real", "reps=1", "k=%d" % k], "miri_seeds": T(tier, 4, 24), "timeout": 1500})
+        return js
+
+    def ev(merged, results):
+        c = merged["counters"]
+        e = core_evidence(merged, results)
+        e["wraps_executed"] = c.get("wrap.wraps_executed", 0)
+        e["wraps_inside_nested_replacement_load"] = c.get("wrap.wraps_inside_nested_replacement_load", 0)
+        e["executions_per_situation"] = {k: v for k, v in c.items() if k.startswith("wrap.situation.")}
+        e["executions_per_preset"] = {k: v for k, v in c.items() if k.startswith("wrap.preset_k.")}
+        e["fault_points"] = "17 counter presets x 3 situations x 2 ways onto the slow path"
+        e["crate_panics"] = merged.get("crate_panics", [])
+        return e
+
+    def req(merged):
+        c = merged["counters"]
+        need = []
+        for k in range(17):
+            if c.get("wrap.preset_k.%02d" % k, 0) == 0:
+                need.append("preset k=%d never run" % k)
+        for s_ in range(3):
+            if c.get("wrap.situation.%d" % s_, 0) == 0:
+                need.append("situation %d never run" % s_)
+        if c.get("wrap.wraps_executed", 0) < 20:
+            need.append("fewer than 20 wraps executed")
+        return need
+    return {
+        "level": "fault_enumeration",
+        "jobs": jobs,
+        "rule": ("Fault points = the 17 presets of the thread's slow-path transaction counter (the wrap then falls on the 1st .. 17th slow-path load) x 3 situations "
+                 "(no writer; writers helping that transaction; the wrap inside a writer's nested replacement load) x 2 ways onto the slow path (fallback-only "
+                 "strategy, default strategy with >8 guards held): all 102 cells are enumerated `reps` times with different workload / schedule seeds (TOKEN and "
+                 "free-running, plus Miri for small k), followed by 20-60 more operations per thread and all core oracles. In addition every execution of the core "
+                 "and lifecycle workloads runs under the panic hook. One evaluation = one execution; non-trivial = a load overlapped a write; distinct = distinct "
+                 "(schedule trace, cell)."),
+        "evidence": ev,
+        "required": req,
+        "assumptions": ["The counter is preset through the verif-hooks accessor; histories longer than usize::MAX/4 slow-path reads are represented by the preset, not executed.",
+                        "A panic is attributed to the crate if its location is inside /repo; a hang is decided by the watchdog rules."],
+        "min_evaluations": {"quick": 500, "thorough": 30000},
+    }
+
+
+PLANS["C13"] = plan_c13()
